@@ -167,15 +167,16 @@ PROPS = {
                      'with unit-propagation pruning up to 26 exported variables and reported as undecided drift beyond'],
     ),
     'C06': dict(
-        theorem_files=['C06', 'C06l', 'GoTypes'],
-        judge='C06', judge_module='Judge.J06', judge_fn='judge_C06',
-        cases=dict(quick=3000, thorough=60000),
+        theorem_files=['C06', 'C06l', 'GoTypes', 'Snap'],
+        parts=[dict(harness='C06', judge='C06', cases=dict(quick=3000, thorough=60000), judge_module='Judge.J06', judge_fn='judge_C06'),
+               dict(harness='S01', judge='snaps', cases=dict(quick=1500, thorough=15000))],
         rule='conflict-rich CNF with certificate generation on (channel) x learned-clause limit default/4/20: 3-SAT near the '
              'threshold over 6..18 and 15..24 variables, 4% over 30..50 variables (there an Unsat answer is justified by its '
              'certificate alone), pigeonhole, parity chains, mixed CNF; 1% of the runs read the certificate slowly (120 ms pauses); '
              'every emitted line is replayed in order by the verified checker rup_check (coq/Model/Rup.v, C06_checker), Unsat '
              'answers must contain or UP-derive the empty clause, verdict and model are judged as in C01; non-trivial = at '
-             'least one certificate line was emitted',
+             'least one certificate line was emitted'
+             ' Second part (S01): solves with the search-state tracing hooks on; at up to 4 tracing points per solve the state handed to conflict analysis (trail, levels, reasons, conflict) and its result, and the state when propagation ended without conflict, are judged by coq/Judge/J21.v: the state meets the hypotheses of the theorems about Model/Learn.v / Model/CPSearch.v, the analysis returned what the model computes on that state, no constraint is falsified (nor, for clauses and cardinality constraints, propagating) at a quiet point',
         nontrivial=lambda sx, v, meta: v[0] == 'ok' and len(v[2]) > 1 and int(v[2][-1]) > 0,
         stats=_verdict_stats,
         assumptions=['the stdout sink is exercised in C19'],
@@ -202,14 +203,18 @@ PROPS = {
         assumptions=[],
     ),
     'C14': dict(
-        theorem_files=['C14', 'C14s', 'Judges'],
+        theorem_files=['C14', 'C14s', 'Judges', 'Snap'],
         parts=[dict(harness='C14', judge='C14', cases=dict(quick=6000, thorough=50000), judge_module='Judge.J14', judge_fn='judge_C14'),
-               dict(harness='C14opt', judge='C03', cases=dict(quick=3000, thorough=30000))],
+               dict(harness='C14opt', judge='C03', cases=dict(quick=3000, thorough=30000)),
+               dict(harness='S14', judge='snaps', cases=dict(quick=3000, thorough=30000))],
         rule='part 1: problems (CNF, 3-SAT, cardinality, PB, pigeonhole as clauses and as cardinality constraints, binary-rich CNF '
              'with and without PB constraints; 2..9 variables quick, 2..13 thorough) solved with CuttingPlanes=true, half of them '
              'after DetectAtMostOne, a quarter with a learned-constraint limit of 4; every answer is judged against the oracle '
              '(which subsumes strategy on = strategy off) and every learned constraint still held by the solver (hook) must be '
-             'entailed by the problem; part 2: the C03 optimisation cases (API route) with CuttingPlanes=true. Non-trivial = '
+             'entailed by the problem; part 2: the C03 optimisation cases (API route) with CuttingPlanes=true; part 3 (S14): '
+             'solves with the tracing hooks on: the state handed to cuttingPlanes at up to 4 conflicts per solve meets state_wf3b '
+             '(hypothesis of C14_search_sound / C14_search_total) and the call returned what Model/CPSearch.cutting_planes '
+             'computes on it (learned constraint up to the order of its terms, propagated literals, level). Non-trivial = '
              'at least 2 constraints',
         nontrivial=_solve_nontrivial, stats=_verdict_stats,
         assumptions=['termination and absence of panics are observed per run, not proved'],
@@ -238,36 +243,45 @@ PROPS = {
                      'added cardinality/PB constraints mention each variable once'],
     ),
     'C10': dict(
-        theorem_files=['C10', 'C06l', 'Judges'],
-        judge='C10m', judge_module='Judge.JModel', judge_fn='judge_C10_m',
-        cases=dict(quick=6000, thorough=60000),
+        theorem_files=['C10', 'C06l', 'C01c', 'Judges', 'Snap', 'Trace'],
+        parts=[dict(harness='C10', judge='C10m', cases=dict(quick=6000, thorough=60000), judge_module='Judge.JModel', judge_fn='judge_C10_m'),
+               dict(harness='S10', judge='snaps', cases=dict(quick=3000, thorough=30000)),
+               dict(harness='T10', judge='trace', cases=dict(quick=500, thorough=5000))],
         rule='base CNF problems (mixed, unit-rich, 3-SAT; 2..9 variables quick, 2..14 thorough) x 1..6 rounds of Assume+Solve; '
              'a round is: empty list, the previous list again, both polarities of a variable, the negation of the previous '
-             'round, a repeated literal, or 1..4 literals over distinct variables; non-trivial = at least 2 rounds',
+             'round, a repeated literal, or 1..4 literals over distinct variables; non-trivial = at least 2 rounds'
+             ' Second part (S10): solves with the search-state tracing hooks on; at up to 4 tracing points per solve the state handed to conflict analysis (trail, levels, reasons, conflict) and its result, and the state when propagation ended without conflict, are judged by coq/Judge/J21.v: the state meets the hypotheses of the theorems about Model/Learn.v / Model/CPSearch.v, the analysis returned what the model computes on that state, no constraint is falsified (nor, for clauses and cardinality constraints, propagating) at a quiet point'
+             ' Third part (T10): WHOLE RUNS of the search loop: tracing at every tracing point (up to 300 per solve, a third of the solves with restarts forced by the hook VerifRestartEvery, learned-clause limit lowered by VerifSetNbMax); coq/Judge/J22.v rebuilds the command list of coq/Model/Search.v from the snapshots (decisions, propagations with their reasons, conflicts, restarts, forgotten clauses), runs the mirrored loop on it -- the successor of each conflict is computed by Model.Learn.conflict_step --, demands the observed state after every group of commands and the observed answer at the end, and replays the whole list with Model.Search.replay (J_trace_unsat / J_trace_sat: the answer is then proved right for this run)',
         nontrivial=_hist_nontrivial,
         assumptions=['assumed literals are over variables of the problem'],
     ),
     'C01': dict(
-        theorem_files=['C01', 'C01s', 'GoTypes', 'Judges'],
-        judge='solve_m', judge_module='Judge.JModel', judge_fn='judge_solve_case_m',
-        cases=dict(quick=10000, thorough=60000),
+        theorem_files=['C01', 'C01s', 'C01c', 'GoTypes', 'Judges', 'Snap', 'Trace'],
+        parts=[dict(harness='C01', judge='solve_m', cases=dict(quick=10000, thorough=60000), judge_module='Judge.JModel', judge_fn='judge_solve_case_m'),
+               dict(harness='S01', judge='snaps', cases=dict(quick=3000, thorough=30000)),
+               dict(harness='T01', judge='trace', cases=dict(quick=500, thorough=5000))],
         exhaustive=dict(quick=True, thorough=True),
         rule='cases 0..7310 = EVERY ordered list of <=2 clauses of <=3 literals over 2 variables (duplicates, tautologies, '
              'empty and unit clauses included) through ParseSlice / ParseSliceNb(+2 unused variables) / ParseCNF, then random '
              'CNF (mixed lengths with 10% duplicate literals and 5% tautologies, unit-rich, 3-SAT near the threshold for '
              'n in [3,14] and [15,30], pigeonhole 2-4, parity chains); configuration rotates over certificate on/off x '
-             'learned-clause limit default/4/20 (hook). Non-trivial = at least 2 clauses; distinct = distinct (case, observables) text',
+             'learned-clause limit default/4/20 (hook). Non-trivial = at least 2 clauses; distinct = distinct (case, observables) text'
+             ' Second part (S01): solves with the search-state tracing hooks on; at up to 4 tracing points per solve the state handed to conflict analysis (trail, levels, reasons, conflict) and its result, and the state when propagation ended without conflict, are judged by coq/Judge/J21.v: the state meets the hypotheses of the theorems about Model/Learn.v / Model/CPSearch.v, the analysis returned what the model computes on that state, no constraint is falsified (nor, for clauses and cardinality constraints, propagating) at a quiet point'
+             ' Third part (T01): WHOLE RUNS of the search loop: tracing at every tracing point (up to 300 per solve, a third of the solves with restarts forced by the hook VerifRestartEvery, learned-clause limit lowered by VerifSetNbMax); coq/Judge/J22.v rebuilds the command list of coq/Model/Search.v from the snapshots (decisions, propagations with their reasons, conflicts, restarts, forgotten clauses), runs the mirrored loop on it -- the successor of each conflict is computed by Model.Learn.conflict_step --, demands the observed state after every group of commands and the observed answer at the end, and replays the whole list with Model.Search.replay (J_trace_unsat / J_trace_sat: the answer is then proved right for this run)',
         nontrivial=_solve_nontrivial, stats=_verdict_stats,
         assumptions=['termination and absence of panics are observed per run (10 s limit per case), not proved'],
     ),
     'C02': dict(
-        theorem_files=['C02', 'C02b', 'C02s', 'C02p'],
-        judge='solve_m', judge_module='Judge.JModel', judge_fn='judge_solve_case_m',
-        cases=dict(quick=8000, thorough=80000),
+        theorem_files=['C02', 'C02b', 'C02s', 'C02p', 'C01c', 'Snap', 'Trace'],
+        parts=[dict(harness='C02', judge='solve_m', cases=dict(quick=8000, thorough=80000), judge_module='Judge.JModel', judge_fn='judge_solve_case_m'),
+               dict(harness='S02', judge='snaps', cases=dict(quick=3000, thorough=30000)),
+               dict(harness='T02', judge='trace', cases=dict(quick=200, thorough=2000))],
         rule='random sets of 1..n+3 cardinality / PB constraints over 1..10 (quick) or 1..16 (thorough) variables built through '
              'the public constructors (AtLeast1 AtMost1 Exactly1 CardConstr, PropClause AtLeast AtMost GtEq LtEq Eq), '
              'coefficients in [-W,W] W in {1,2,4,9} incl. 0, degree from below the minimum to above the maximum of the sum, '
-             'through ParseCardConstrs and ParsePBConstrs; non-trivial = at least 2 constraints',
+             'through ParseCardConstrs and ParsePBConstrs; non-trivial = at least 2 constraints'
+             ' Second part (S02): solves with the search-state tracing hooks on; at up to 4 tracing points per solve the state handed to conflict analysis (trail, levels, reasons, conflict) and its result, and the state when propagation ended without conflict, are judged by coq/Judge/J21.v: the state meets the hypotheses of the theorems about Model/Learn.v / Model/CPSearch.v, the analysis returned what the model computes on that state, no constraint is falsified (nor, for clauses and cardinality constraints, propagating) at a quiet point'
+             ' Third part (T02): WHOLE RUNS of the search loop: tracing at every tracing point (up to 300 per solve, a third of the solves with restarts forced by the hook VerifRestartEvery, learned-clause limit lowered by VerifSetNbMax); coq/Judge/J22.v rebuilds the command list of coq/Model/Search.v from the snapshots (decisions, propagations with their reasons, conflicts, restarts, forgotten clauses), runs the mirrored loop on it -- the successor of each conflict is computed by Model.Learn.conflict_step --, demands the observed state after every group of commands and the observed answer at the end, and replays the whole list with Model.Search.replay (J_trace_unsat / J_trace_sat: the answer is then proved right for this run)',
         nontrivial=_solve_nontrivial, stats=_verdict_stats,
         assumptions=['each variable occurs at most once per constraint (as the property states)',
                      'Go int overflow is not modelled (coefficients are small)'],
